@@ -349,8 +349,9 @@ def merge(case, seeds):
         else:
             stream, groups = None, []
         api = None
-        if o["api_help"] is not None:
-            api = _entries_with_dest(drv.parse_help(o["api_help"])["sections"], opt2dest)
+        if o["api"] is not None:
+            api = {"ok": _entries_with_dest(drv.parse_help(o["api_help"])["sections"], opt2dest)} if o["api"] == ["ok"] \
+                else {"err": o["api"][:2]}
         v = {"full": o["full"], "end": ["cre"] if h[0] == "cre" else h[:2], "stream": stream, "groups": groups, "accepted": accepted, "action_dests": o["action_dests"],
              "hidden": [[d, all(k == "exit" and c == 2 for _, k, c in probes), probes, reg] for d, probes, reg in o["hidden"]],
              "format_help_same": o["format_help_same"], "api": api, "after": _view(case, o["after"]), "fresh": _view(case, o["fresh"]),
@@ -417,7 +418,7 @@ def _check_variant(case, v):
             return f"hidden field {d} has an action"
         if not rejected:
             return f"hidden field {d} is parseable: {[p for p in probes if not (p[1] == 'exit' and p[2] == 2)]}"
-    if v["api"] != v["groups"]:
+    if v["api"] != {"ok": v["groups"]}:
         return "print_help() on a fresh parser lists other entries than --help"
     if v["after"] != v["fresh"]:
         return f"a parse after print_help() returns {v['after']}, a fresh parser returns {v['fresh']}"
@@ -465,7 +466,8 @@ def signature(case, obs, reason):
         return "print_help-before-parse:" + ("config-file-defaults-ignored" if case["source"] == "config" else case["source"])
     if reason.startswith("coq-spec"):
         return "coq-spec-only"
-    return "entries:" + "-".join(reason.split(" ")[:3]).replace("'", "").replace("[", "").replace("]", "")[:40]
+    import re
+    return "entries:" + re.sub(r"[^A-Za-z0-9_.-]", "", "-".join(reason.split(" ")[:3]))[:40]
 
 
 def _has_tie(case, obs):
@@ -509,8 +511,8 @@ class Names:
 
     def t(self, text):
         """share a composite sub-term"""
-        if len(text) <= 8:
-            return text
+        if len(text) <= 8 or text.startswith("(Err") or text in ("[]", "None"):
+            return text  # (polymorphic terms must not be shared between uses at different types)
         if text not in self.tbl2:
             self.tbl2[text] = f"t{len(self.tbl2)}"
             self.order.append((self.tbl2[text], text))
@@ -596,8 +598,7 @@ def to_coq(case, obs):
         stream = {"out": "(Some SOut)", "err": "(Some SErr)", None: "None"}[v["stream"]]
         acc = n.t(clist([n.t(cpair(n.s(d), n.ss(k))) for d, k in v["accepted"]]))
         hid = n.t(clist([cpair(n.s(d), cbool(rej)) for d, rej, _, _ in v["hidden"]]))
-        cre = v["end"] == ["cre"]
-        api = "(Err CRE)" if cre or not v["full"] else (n.t(_res(v["api"], lambda g: _groups(g, n))) if v["api"] is not None else '(Err (Raise "NoApi"))')
+        api = n.t(_res(v["api"], lambda g: _groups(g, n)))
         vs.append(f"(mkvar {cbool(v['full'])} {n.t(clist([n.ss(r) for r in v['oracle']]))} {_err(v['end'])} {stream} {_groups(v['groups'], n)} {acc} "
                   f"{n.ss(v['action_dests'])} {hid} {cbool(bool(v['format_help_same']))} {api} "
                   f"{n.t(_res(v['after'], view))} {n.t(_res(v['fresh'], view))})")
